@@ -15,12 +15,15 @@ from .common import log
 
 PARTS = [("containers", modules_containers), ("positions", modules_positions), ("perms", modules_perms)]
 
-RULE = ("(a) TLC enumerates every digraph of by-value containment over constants and structures (<= 4 declarations; "
-        "pointer references and self-references for <= 3) x kind assignment x permutation of the declarations, checks the "
+RULE = ("(a) TLC enumerates every digraph of by-value containment over constants, structures and words (<= 4 declarations; "
+        "pointer references, self-references and words for <= 3; the chain of 6 plus one reference; 12 spellings of a reference) "
+        "x kind assignment x permutation of the declarations, checks the "
         "model of found_container_1 / determine_container_depths / the depth sort against the rule 'accepted iff acyclic; "
         "E413/E415/E416 truthful of the declaration they are located on; depth = longest path; typed in topological order', "
         "and every case is compiled by the real front end. (b) TLC enumerates every value type up to nesting depth 3 in "
-        "every declaration position and evaluates the documented legality rule; every cell is compiled as a minimal program. "
+        "every declaration position (depth <= 2 also with pub / extern, depth <= 1 also as the second of two declarations), words, "
+        "named lengths and duplicate names in every arrangement, and evaluates the documented legality rule; every cell is compiled "
+        "as a minimal program. "
         "(c) generated valid programs are compiled and executed under random permutations of their declarations; TLC "
         "validates that all orders are accepted and behave identically. Random graphs (<= 8 declarations) are recorded with "
         "the contain/depth hook events and validated by TLC. Non-trivial = distinct inputs with at least one reference / "
